@@ -143,7 +143,7 @@ def check(run, replay):
 
     # ---- stream 2b: the documented meaning itself on the implementation (grammar texts only)
     n = 1500 if quick else 40000
-    gtexts = list(dict.fromkeys([L.gen_grammar(rng) for _ in range(n)] + ([t for t in shipped[0] if not any(ch in t for ch in b".eE!")] if shipped else [])))
+    gtexts = list(dict.fromkeys([L.gen_grammar(rng) for _ in range(n)] + ([t for t in shipped[0] if not any(ch in t for ch in b".eE")] if shipped else [])))
     cases = []
     for t in gtexts:
         for z in L.values_for(rng, t, extra=1):
@@ -165,7 +165,7 @@ def check(run, replay):
                                "how": "echo '%s' | build/harness/vh_c30 intvalid" % vlib.enc_case(c)})
     run.stream("documented-meaning")["disagreements"] += nbad
 
-    # ---- stream 2c: `!v` with an integer v (manual: "all values are accepted, except v")
+    # ---- stream 2c: `!v` with an integer v (manual: "all values are accepted, except v"; was finding valid-bang-int, fixed by b7bc34c)
     bang = []
     for v in (0, 1, 5, -3, 255):
         for z in (v, v + 1, v - 1, 0, 100):
